@@ -1021,7 +1021,7 @@ Proof.
   cbn [map forallb fst snd]. apply negb_true_iff in O1. rewrite (plain_convert v O1). apply IH. exact O2.
 Qed.
 
-Lemma upload_anywhere url q o vars h t : vars_ok vars = true ->
+Lemma upload_anywhere_plain url q o vars h t : plain (VDict (convert_dict vars)) = true ->
   let c := mk_call q o (Some vars) h t in
   let ct := VDict (convert_dict vars) in
   map snd (uploads_at [] ct) = all_upload_ids vars /\
@@ -1040,7 +1040,7 @@ Proof.
     by (apply ids_convert_dict).
   split; [exact I|].
   destruct (separate_characterised (VDict (convert_dict vars)) []) as [files [fmap [E [ND [M F]]]]].
-  destruct (plain_serialisable _ (plain_convert_dict vars O)) as [vj T].
+  destruct (plain_serialisable _ O) as [vj T].
   exists files, fmap, vj. rewrite I in M.
   split; [exact E|]. split; [exact ND|]. split; [exact M|]. split; [exact F|]. split; [exact T|].
   assert (B : build_request url (mk_call q o (Some vars) h t) =
@@ -1064,6 +1064,21 @@ Proof.
     subst fmap. reflexivity.
 Qed.
 
+Lemma upload_anywhere url q o vars h t : vars_ok vars = true ->
+  let c := mk_call q o (Some vars) h t in
+  let ct := VDict (convert_dict vars) in
+  map snd (uploads_at [] ct) = all_upload_ids vars /\
+  exists files fmap vj,
+    separate [] ct ([], []) = (null_uploads ct, (files, fmap)) /\
+    NoDup files /\ (forall id, In id files <-> In id (all_upload_ids vars)) /\
+    fmap = expected_map (uploads_at [] ct) files 0 /\
+    to_json (null_uploads ct) = Some vj /\
+    (all_upload_ids vars = [] ->
+       build_request url c = RJson url (merge_headers (match h with Some x => x | None => [] end)) t (body_json q o vj)) /\
+    (all_upload_ids vars <> [] ->
+       build_request url c = RMultipart url h t (body_json q o vj) (fmap_json fmap) (files_parts files)).
+Proof. intro O. apply upload_anywhere_plain. apply plain_convert_dict. exact O. Qed.
+
 (* ================= upload bytes ================= *)
 Lemma sent_bytes_position_irrelevant u n : up_seekable u = true -> sent_bytes (set_pos n u) = up_content u.
 Proof. unfold sent_bytes, set_pos. simpl. intro H. rewrite H. reflexivity. Qed.
@@ -1081,3 +1096,190 @@ Proof. induction s; simpl; auto. Qed.
 
 Lemma nonseekable_resend_empty u : up_seekable u = false -> sent_bytes (after_send u) = EmptyString.
 Proof. unfold sent_bytes, after_send, set_pos. simpl. intro H. rewrite H. apply drop_all. Qed.
+
+(* ================= the telemetry copy of the dispatch sends the same request ================= *)
+Lemma build_request_dispatch url c :
+  build_request url c =
+  let '(vars, (files, fmap)) := process_variables (c_vars c) in
+  if negb (is_nil files) && negb (is_nil fmap) then send_multipart url c vars files fmap
+  else send_json url c vars.
+Proof.
+  unfold build_request, send_multipart, send_json.
+  destruct (process_variables (c_vars c)) as [vars [files fmap]].
+  destruct (to_json (VDict vars)); destruct (negb (is_nil files) && negb (is_nil fmap)); reflexivity.
+Qed.
+
+Lemma telemetry_same_request root url c :
+  snd (execute_with_telemetry root url c) = build_request url c.
+Proof.
+  rewrite build_request_dispatch. unfold execute_with_telemetry.
+  destruct (process_variables (c_vars c)) as [vars [files fmap]].
+  destruct (negb (is_nil files) && negb (is_nil fmap)); unfold send_multipart, send_json;
+    destruct (to_json (VDict vars)); reflexivity.
+Qed.
+
+(* what the spans carry *)
+Lemma telemetry_spans root url c :
+  exists child, fst (execute_with_telemetry root url c) = [mk_span root [component_attr]; child] /\
+  match build_request url c with
+  | RError => sp_attrs child = [component_attr]
+  | RJson _ _ _ b =>
+      sp_name child = "json request" /\
+      exists vj, b = body_json (c_query c) (c_opname c) vj /\
+        sp_attrs child = [component_attr; ("query", JStr (c_query c));
+                          ("operationName", opname_attr (c_opname c)); ("variables", vj)]
+  | RMultipart _ _ _ ops fm _ =>
+      sp_name child = "multipart request" /\
+      exists vj, ops = body_json (c_query c) (c_opname c) vj /\
+        sp_attrs child = [component_attr; ("query", JStr (c_query c));
+                          ("operationName", opname_attr (c_opname c)); ("variables", vj); ("map", fm)]
+  end.
+Proof.
+  rewrite build_request_dispatch. unfold execute_with_telemetry, send_multipart, send_json.
+  destruct (process_variables (c_vars c)) as [vars [files fmap]].
+  destruct (negb (is_nil files) && negb (is_nil fmap)); destruct (to_json (VDict vars)) as [vj|];
+    eexists; (split; [reflexivity|]); simpl; eauto.
+Qed.
+
+(* ================= exactly when nothing is sent: an UNSET json.dumps meets ================= *)
+Lemma existsb_map' {X Y} (f : Y -> bool) (g : X -> Y) l : existsb f (map g l) = existsb (fun x => f (g x)) l.
+Proof. induction l; simpl; congruence. Qed.
+Lemma forallb_map' {X Y} (f : Y -> bool) (g : X -> Y) l : forallb f (map g l) = forallb (fun x => f (g x)) l.
+Proof. induction l; simpl; congruence. Qed.
+Lemma existsb_ext_in' {X} (f g : X -> bool) l : (forall x, In x l -> f x = g x) -> existsb f l = existsb g l.
+Proof.
+  induction l; simpl; intro H; [reflexivity|]. rewrite (H a) by auto. f_equal. apply IHl. auto.
+Qed.
+Lemma forallb_ext_in' {X} (f g : X -> bool) l : (forall x, In x l -> f x = g x) -> forallb f l = forallb g l.
+Proof.
+  induction l; simpl; intro H; [reflexivity|]. rewrite (H a) by auto. f_equal. apply IHl. auto.
+Qed.
+
+Fixpoint no_model (t : vt) : bool :=
+  match t with
+  | VModel _ => false
+  | VList l => forallb no_model l
+  | VDict kv => forallb (fun q => no_model (snd q)) kv
+  | _ => true
+  end.
+
+Lemma dumpv_unset_model t : has_unset (dumpv t) = reach_unset t /\ no_model (dumpv t) = true.
+Proof.
+  induction t using vt_ind2; simpl; auto.
+  - rewrite Forall_forall in H. rewrite existsb_map', forallb_map'. split.
+    + apply existsb_ext_in'. intros x I. apply (H x I).
+    + apply forallb_forall. intros x I. apply (H x I).
+  - rewrite Forall_forall in H. rewrite existsb_map', forallb_map'. split.
+    + apply existsb_ext_in'. intros [k x] I. apply (H (k, x) I).
+    + apply forallb_forall. intros [k x] I. apply (H (k, x) I).
+  - induction H as [|[f x] r Hx Hr IH]; simpl in *; [auto|]. destruct IH as [I1 I2]. destruct Hx as [H1 H2].
+    destruct (mf_set f); simpl; [rewrite H1, H2, I1, I2 | rewrite I1, I2]; auto.
+Qed.
+
+Lemma convert_unset_model t : has_unset (convert_value t) = reach_unset t /\ no_model (convert_value t) = true.
+Proof.
+  induction t using vt_ind2; try (simpl; auto; fail).
+  - simpl. rewrite Forall_forall in H. rewrite existsb_map', forallb_map'. split.
+    + apply existsb_ext_in'. intros x I. apply (H x I).
+    + apply forallb_forall. intros x I. apply (H x I).
+  - simpl. rewrite Forall_forall in H. rewrite existsb_map', forallb_map'. split.
+    + apply existsb_ext_in'. intros [k x] I. apply (H (k, x) I).
+    + apply forallb_forall. intros [k x] I. apply (H (k, x) I).
+  - apply (dumpv_unset_model (VModel fs)).
+Qed.
+
+Lemma has_unset_null t : has_unset (null_uploads t) = has_unset t.
+Proof.
+  induction t using vt_ind2; simpl; auto.
+  - rewrite Forall_forall in H. rewrite existsb_map'. apply existsb_ext_in'. auto.
+  - rewrite Forall_forall in H. rewrite existsb_map'. apply existsb_ext_in'. intros [k x] I. apply (H (k, x) I).
+Qed.
+
+Lemma plain_iff t : plain t = no_model t && negb (has_unset t).
+Proof.
+  induction t using vt_ind2; simpl; auto.
+  - induction H as [|x r Hx Hr IH]; simpl; [reflexivity|]. rewrite Hx, IH.
+    destruct (no_model x), (has_unset x), (forallb no_model r), (existsb has_unset r); reflexivity.
+  - induction H as [|[k x] r Hx Hr IH]; simpl in *; [reflexivity|]. rewrite Hx, IH.
+    destruct (no_model x), (has_unset x), (forallb (fun q => no_model (snd q)) r),
+      (existsb (fun q => has_unset (snd q)) r); reflexivity.
+Qed.
+
+Lemma serialisable_iff t : no_model t = true ->
+  (to_json (null_uploads t) = None <-> has_unset t = true).
+Proof.
+  intro N. split.
+  - intro E. destruct (has_unset t) eqn:U; [reflexivity|]. exfalso.
+    assert (P : plain t = true) by (rewrite plain_iff, N, U; reflexivity).
+    destruct (plain_serialisable t P) as [j Ej]. congruence.
+  - intro U. destruct (to_json (null_uploads t)) as [j|] eqn:E; [|reflexivity]. exfalso.
+    apply to_json_no_unset in E. rewrite has_unset_null in E. congruence.
+Qed.
+
+Lemma convert_dict_unset_model vars :
+  has_unset (VDict (convert_dict vars)) = vars_reach_unset vars /\ no_model (VDict (convert_dict vars)) = true.
+Proof.
+  unfold convert_dict, vars_reach_unset. simpl. induction vars as [|[k v] r [I1 I2]]; simpl; [auto|].
+  destruct (is_unset v); simpl; [auto|].
+  destruct (convert_unset_model v) as [H1 H2]. rewrite H1, H2, I1, I2. auto.
+Qed.
+
+Lemma request_shape url q o vars h t :
+  let ct := VDict (convert_dict vars) in
+  build_request url (mk_call q o (Some vars) h t) =
+  match to_json (null_uploads ct) with
+  | None => RError
+  | Some vj =>
+      let '(files, fmap) := snd (separate [] ct ([], [])) in
+      if negb (is_nil files) && negb (is_nil fmap)
+      then RMultipart url h t (body_json q o vj) (fmap_json fmap) (files_parts files)
+      else RJson url (merge_headers (match h with Some x => x | None => [] end)) t (body_json q o vj)
+  end.
+Proof.
+  cbv zeta. unfold build_request. cbn [c_vars c_headers c_timeout c_query c_opname].
+  destruct vars as [|p0 r0]; [reflexivity|].
+  rewrite process_some by discriminate. rewrite get_files_spec.
+  destruct (separate_characterised (VDict (convert_dict (p0 :: r0))) []) as [files [fmap [E _]]].
+  rewrite E. cbn [null_uploads snd]. destruct (to_json _); reflexivity.
+Qed.
+
+(* nothing is sent exactly when an UNSET is met below the top level *)
+Lemma error_iff_reach_unset url q o vars h t :
+  build_request url (mk_call q o (Some vars) h t) = RError <-> vars_reach_unset vars = true.
+Proof.
+  rewrite request_shape. cbv zeta. destruct (convert_dict_unset_model vars) as [U N].
+  pose proof (serialisable_iff _ N) as S. rewrite U in S.
+  destruct (to_json (null_uploads (VDict (convert_dict vars)))) as [vj|].
+  - split; intro H.
+    + destruct (snd (separate [] (VDict (convert_dict vars)) ([], []))) as [files fmap].
+      destruct (negb (is_nil files) && negb (is_nil fmap)); discriminate.
+    + apply S in H. discriminate.
+  - split; intro H; [apply S; reflexivity | reflexivity].
+Qed.
+
+(* the same with the exact restriction: no UNSET that json.dumps would meet *)
+Lemma upload_anywhere_exact url q o vars h t : vars_reach_unset vars = false ->
+  let c := mk_call q o (Some vars) h t in
+  let ct := VDict (convert_dict vars) in
+  map snd (uploads_at [] ct) = all_upload_ids vars /\
+  exists files fmap vj,
+    separate [] ct ([], []) = (null_uploads ct, (files, fmap)) /\
+    NoDup files /\ (forall id, In id files <-> In id (all_upload_ids vars)) /\
+    fmap = expected_map (uploads_at [] ct) files 0 /\
+    to_json (null_uploads ct) = Some vj /\
+    (all_upload_ids vars = [] ->
+       build_request url c = RJson url (merge_headers (match h with Some x => x | None => [] end)) t (body_json q o vj)) /\
+    (all_upload_ids vars <> [] ->
+       build_request url c = RMultipart url h t (body_json q o vj) (fmap_json fmap) (files_parts files)).
+Proof.
+  intro O. apply upload_anywhere_plain. destruct (convert_dict_unset_model vars) as [U N].
+  rewrite plain_iff, N, U, O. reflexivity.
+Qed.
+
+(* vars_ok (no UNSET anywhere below the top, unset model fields included) is the narrower class *)
+Lemma vars_ok_no_reach vars : vars_ok vars = true -> vars_reach_unset vars = false.
+Proof.
+  intro O. destruct (vars_reach_unset vars) eqn:R; [|reflexivity]. exfalso.
+  pose proof (plain_convert_dict vars O) as P. destruct (convert_dict_unset_model vars) as [U N].
+  rewrite plain_iff, N, U, R in P. discriminate.
+Qed.
